@@ -37,9 +37,10 @@ VARIABLES
     best,       \* best chain: best[h] = block at height h (h >= 1)
     pool,       \* node mempool: announced, still valid, unconfirmed transactions
     ntfB,       \* queued tip notifications (block ids)
-    ntfT        \* queued unconfirmed-transaction notifications
+    ntfT,       \* queued unconfirmed-transaction notifications
+    reorg       \* 0, or the leaf a step-by-step reorganisation is heading for (see ReorgStep)
 
-chainVars == <<parent, content, best, pool, ntfB, ntfT>>
+chainVars == <<parent, content, best, pool, ntfB, ntfT, reorg>>
 
 NBlk      == Len(parent)
 Blocks    == 1..NBlk
@@ -156,9 +157,11 @@ ChainInit ==
     /\ pool = {}
     /\ ntfB = <<>>
     /\ ntfT = <<>>
+    /\ reorg = 0
 
 \* connectBestChain, plain case: a new block on the tip; the tip is notified
 Extend(txs) ==
+    /\ reorg = 0
     /\ NBlk < MaxBlocks
     /\ Len(ntfB) < MaxQ
     /\ txs \in Contents(CC(best))
@@ -167,32 +170,35 @@ Extend(txs) ==
     /\ best'    = Append(best, NBlk + 1)
     /\ pool'    = PoolSettle(pool, CC(best)')
     /\ ntfB'    = Append(ntfB, NBlk + 1)
-    /\ UNCHANGED ntfT
+    /\ UNCHANGED <<ntfT, reorg>>
 
 \* a block that does not become best: no notification at all
 MineSide(p, txs) ==
+    /\ reorg = 0
     /\ NBlk < MaxBlocks
     /\ p \in (Blocks \cup {0}) /\ p # Tip /\ p >= Base
     /\ txs \in Contents(CC(Path(p)))
     /\ parent'  = Append(parent, p)
     /\ content' = Append(content, txs)
-    /\ UNCHANGED <<best, pool, ntfB, ntfT>>
+    /\ UNCHANGED <<best, pool, ntfB, ntfT, reorg>>
 
 \* reorganizeChain seen atomically: the best chain becomes the path to another
 \* leaf; only the new tip is notified
 SwitchTo(l) ==
+    /\ reorg = 0
     /\ l \in Blocks /\ IsLeaf(l) /\ ~OnBest(l)
     /\ Len(ntfB) < MaxQ
     /\ best' = Path(l)
     /\ pool' = PoolSettle(pool, CC(best'))
     /\ ntfB' = Append(ntfB, l)
-    /\ UNCHANGED <<parent, content, ntfT>>
+    /\ UNCHANGED <<parent, content, ntfT, reorg>>
 
 \* a competing branch of Len(cs) new blocks on top of best-chain block p wins:
 \* side blocks are invisible to the wallet (no notification, not in the chain
 \* DB), so mining them and switching is one step as far as the wallet can tell
 SeqFromTo(a, b) == [i \in 1..(b - a + 1) |-> a + i - 1]
 Fork(p, cs) ==
+    /\ reorg = 0
     /\ cs # <<>>
     /\ NBlk + Len(cs) <= MaxBlocks
     /\ Len(ntfB) < MaxQ
@@ -202,14 +208,67 @@ Fork(p, cs) ==
     /\ best'    = Path(p) \o SeqFromTo(NBlk + 1, NBlk + Len(cs))
     /\ pool'    = PoolSettle(pool, CC(best)')
     /\ ntfB'    = Append(ntfB, NBlk + Len(cs))
-    /\ UNCHANGED ntfT
+    /\ UNCHANGED <<ntfT, reorg>>
+
+(***************************************************************************)
+(* The same reorganisation at the grain of the chain database: mass-core's *)
+(* reorganizeChain disconnects the old branch block by block and connects  *)
+(* the new one block by block, every step its own database commit, and the *)
+(* wallet reads the chain database without the chain lock - so a handler   *)
+(* step working on an earlier notification, a rescan batch or a query can  *)
+(* observe every intermediate chain.  Only the final tip is notified.      *)
+(*   ForkSlow(p, cs) : the competing branch exists (side blocks), the node *)
+(*                     has decided to switch to it                         *)
+(*   ReorgStep       : one disconnect (while the tip is not on the path to *)
+(*                     the target) or one connect (afterwards)             *)
+(***************************************************************************)
+ForkSlow(p, cs) ==
+    /\ reorg = 0
+    /\ cs # <<>>
+    /\ NBlk + Len(cs) <= MaxBlocks
+    /\ Len(ntfB) < MaxQ
+    /\ p \in Range(best) /\ p # Tip /\ p >= Base
+    /\ parent'  = parent \o [i \in 1..Len(cs) |-> IF i = 1 THEN p ELSE NBlk + i - 1]
+    /\ content' = content \o cs
+    /\ reorg'   = NBlk + Len(cs)
+    /\ UNCHANGED <<best, pool, ntfB, ntfT>>
+
+ReorgBegin(l) ==     \* the node decides to switch to an existing side branch
+    /\ reorg = 0
+    /\ l \in Blocks /\ IsLeaf(l) /\ ~OnBest(l)
+    /\ Len(ntfB) < MaxQ
+    /\ reorg' = l
+    /\ UNCHANGED <<parent, content, best, pool, ntfB, ntfT>>
+
+OnPathTo(b, l) == b = 0 \/ (Height(b) <= Height(l) /\ Path(l)[Height(b)] = b)
+ReorgDetaches == reorg # 0 /\ ~OnPathTo(Tip, reorg)
+ReorgStep ==
+    /\ reorg # 0
+    /\ IF ReorgDetaches
+       THEN /\ best' = Front(best)
+            /\ UNCHANGED <<pool, ntfB, reorg>>
+       ELSE LET nxt == Path(reorg)[Len(best) + 1] IN
+            /\ best' = Append(best, nxt)
+            /\ IF nxt = reorg
+               THEN /\ reorg' = 0
+                    /\ ntfB' = Append(ntfB, nxt)
+                    /\ pool' = PoolSettle(pool, CC(best'))
+               ELSE UNCHANGED <<pool, ntfB, reorg>>
+    /\ UNCHANGED <<parent, content, ntfT>>
+\* steps a reorganisation in progress still needs
+ReorgLeft == IF reorg = 0 THEN 0
+             ELSE LET common == CHOOSE h \in 0..Len(best) :
+                                  /\ (h = 0 \/ OnPathTo(best[h], reorg))
+                                  /\ \A g \in (h + 1)..Len(best) : ~OnPathTo(best[g], reorg)
+                  IN (Len(best) - common) + (Height(reorg) - common)
 
 \* the node accepts an unconfirmed transaction and relays it to listeners
 Announce(t) ==
+    /\ reorg = 0
     /\ t \in TxIds
     /\ PoolOK(t, pool, CC(best))
     /\ Len(ntfT) < MaxQ
     /\ pool' = pool \cup {t}
     /\ ntfT' = Append(ntfT, t)
-    /\ UNCHANGED <<parent, content, best, ntfB>>
+    /\ UNCHANGED <<parent, content, best, ntfB, reorg>>
 =============================================================================
